@@ -9,6 +9,12 @@ TRUST = ("Trusted base: Go type checker and go/ssa construction (x/tools v0.29.0
 
 # id -> (claimed?, technique, level text, not-decided / note, design ref)
 P = {
+ "C05": (True, "static analysis: who-may-X over SSA, lock-state dataflow (guarded-by, same-critical-section), dominance and capacity side conditions",
+         "Decides id uniqueness plumbing (one fresh atomic id per invocation shared by all its messages), register-before-queue in enqueue, that the router map is only touched under its mutex, deliver-then-delete atomicity with the streaming exemption, the id echo on the server side (WrapMessage writes only Status; generated handlers echo in.Metadata), reply-channel capacity >= number of registering enqueues, and that every response names the producing node. Necessary structural conditions.",
+         "Not decided: transport cross-talk; 64-bit counter wrap; reply content.", "DESIGN.md section 3, C05"),
+ "C07": (True, "static analysis: must-pass-through on the sender/receiver/enqueue CFGs, provenance of error values, router deletion rule",
+         "Decides that errors never enter the reply set and are recorded once with their node, that a dequeued request is sent or answered with a non-nil error, that a stream read error fails every pending call with an Unavailable error, that handler statuses travel (WrapMessage / receiver), and that an error delivery always removes the router (at most one error per node and call). Necessary structural conditions.",
+         "Not decided: the code of errors produced by failed writes (run-time value); liveness.", "DESIGN.md section 3, C07"),
  "C11": (True, "static analysis: SSA provenance, condition-consistent reachability, lock-state dataflow on correctable.go; AST rules on generated accessors",
          "Decides initial state (LevelNotSet), reachability of intermediate publications on the not-done edge, that published values/levels are the quorum function's, monotonicity guard, once-only completion (no set after final set; set refuses a done correctable), lock discipline and watcher release loops, Watch-after-done, and nil-safety of generated typed accessors. Necessary structural conditions.",
          "Not decided: real-time 'at once'; watcher wake-up latency; K9 stream exhaustion relies on C07 E6.", "DESIGN.md section 3, C11"),
